@@ -20,6 +20,11 @@ BOUNDARY_INTS = sorted(set(_BOUNDARY))
 
 _CODE_POINTS = [9, 10, 11, 12, 13, 32, 34, 39, 44, 45, 46, 48, 57, 58, 65, 90, 92, 97, 122, 126, 127, 160, 0xDC,
                 0xE4, 0x20AC, 0x2026, 0x4E2D, 0xFFFD, 0x1F600]
+# code points that Unicode normalisation (NFC / NFKC) or case mapping turn into other code points or into several:
+# a limit written as such a character between quotes still means exactly this code point
+UNSTABLE_CODE_POINTS = [0x2126, 0x212A, 0x212B, 0x037E, 0x0340, 0x0341, 0x0343, 0x0374, 0x0387, 0x0958, 0x1F71, 0x2000,
+                        0x2001, 0x2329, 0xF900, 0xFA0E, 0xFB1D, 0x2F800, 0x00B5, 0x00DF, 0x0130, 0x0131, 0x017F, 0x01C5,
+                        0x03C2, 0x00AA, 0x00B2, 0x2460, 0xFF21, 0xFB01, 0x1E9E, 0x0149]
 
 
 def int_limits():
@@ -29,6 +34,7 @@ def int_limits():
         st.integers(-300, 300),
         st.sampled_from(BOUNDARY_INTS),
         st.sampled_from(_CODE_POINTS),
+        st.sampled_from(UNSTABLE_CODE_POINTS),
         st.integers(0, 0x10FFFF),
         st.integers(-(2**70), 2**70),
     )
@@ -178,6 +184,12 @@ def int_range_cases(draw, max_items=4, limits=None, spell_kinds=None):
 # code points whose quoted spelling contains a character that also means something in the range grammar (quotes,
 # backslash, separators, comma, minus, hash, blank, digits, letters of symbolic names and of the hex prefix)
 META_CODE_POINTS = [34, 39, 92, 0x2026, 58, 44, 46, 45, 35, 32, 48, 120, 116, 50, 60, 97, 122]
+
+
+def unstable_char_range_cases(max_items=3):
+    """Ranges whose limits are characters that normalisation or case mapping would change, mostly written literally."""
+    return int_range_cases(max_items, st.sampled_from(UNSTABLE_CODE_POINTS),
+                           ("quoted", "quoted", "quoted", "escaped", "dec", "hex"))
 
 
 def meta_char_range_cases(max_items=4):
